@@ -775,6 +775,12 @@ func (g *c02G) genBlock(t *c02Ty, d int, budget int) *c02Exp {
 // (frt.Fst (e, x)) at the final expression(s) of a block
 func c02WrapFinal(e *c02Exp, x string) *c02Exp {
 	switch {
+	case e.K == "match":
+		n := &c02Exp{K: "match", Name: e.Name, Xs: e.Xs, Args: []*c02Exp{e.Args[0]}}
+		for _, a := range e.Args[1:] {
+			n.Args = append(n.Args, c02WrapFinal(a, x))
+		}
+		return n
 	case e.K == "let" || e.K == "lettup":
 		return &c02Exp{K: e.K, Name: e.Name, Xs: e.Xs, Args: []*c02Exp{e.Args[0], c02WrapFinal(e.Args[1], x)}}
 	case e.K == "if" && e.Block:
@@ -786,6 +792,12 @@ func c02WrapFinal(e *c02Exp, x string) *c02Exp {
 // (frt.Fst (e, w)) at the final expression(s) of a block, for an arbitrary inline expression w
 func c02WrapFinalExp(e *c02Exp, w *c02Exp) *c02Exp {
 	switch {
+	case e.K == "match":
+		n := &c02Exp{K: "match", Name: e.Name, Xs: e.Xs, Args: []*c02Exp{e.Args[0]}}
+		for _, a := range e.Args[1:] {
+			n.Args = append(n.Args, c02WrapFinalExp(a, w))
+		}
+		return n
 	case e.K == "let" || e.K == "lettup":
 		return &c02Exp{K: e.K, Name: e.Name, Xs: e.Xs, Args: []*c02Exp{e.Args[0], c02WrapFinalExp(e.Args[1], w)}}
 	case e.K == "if" && e.Block:
